@@ -12,7 +12,8 @@
 (* Records:                                                                 *)
 (*  {"ev":"cfg","cyc":C,"del":D,"rep":r,"rev":b}                            *)
 (*  {"ev":"pos","t":T,"k":0|1|2,"rp":0|1,"rv":0|1,"q":round(pos*2^20),      *)
-(*   "x":round(probe value), "total_ok":0|1}                                *)
+(*   "x":round(probe value), "xo":round(probe value with start_with),       *)
+(*   "total_ok":0|1}                                                        *)
 (***************************************************************************)
 EXTENDS TimeScale, Json, IOUtils, TLC, Sequences
 
@@ -52,14 +53,21 @@ TCfg == /\ l <= Len(Rec) /\ Rec[l].ev = "cfg"
         /\ tm' = [cyc |-> Rec[l].cyc, del |-> Rec[l].del, rep |-> Rec[l].rep, rev |-> Rec[l].rev]
         /\ l' = l + 1
 
+\* Observable through the public Timeline API: the position (probe value), and whether a substituted
+\* start value is in effect (second probe with start_with(2^19): 2^19 + q/2 if so, q if not).
+\* TimeScale::get_position's own phase kind and loop flags are an internal helper's view: a mismatch
+\* there with identical observable behaviour (e.g. Ended(1.0) instead of Active(1.0) exactly at the
+\* end instant) is reported as DRIFT, not rejected.
 TPos == /\ l <= Len(Rec) /\ Rec[l].ev = "pos"
         /\ LET r == Rec[l]  ph == PhaseSafe(tm, r.t)  q == Q20(ph.pn, ph.pd) IN
-           /\ r.k = KindNo(ph.k)                        \* phase decided exactly (C03, C20)
-           /\ r.rp = B2I(ph.rp) /\ r.rv = B2I(ph.rv)    \* loop flags
+           /\ "panic" \notin DOMAIN r                   \* no panic on valid input (C20)
            /\ Near(r.q, q, 2)                           \* position from get_position
            /\ Near(r.x, q, 2)                           \* position seen through Timeline::update
+           /\ Near(r.xo, IF UseOverride(ph) THEN 524288 + (q \div 2) ELSE q, 2)   \* first forward pass or not
            /\ 0 <= r.q /\ r.q <= 1048576                \* in [0,1]
            /\ r.total_ok = 1                            \* duration() = delay + cycle*(repeats+1)
+           /\ IF r.k = KindNo(ph.k) /\ r.rp = B2I(ph.rp) /\ r.rv = B2I(ph.rv) THEN TRUE
+              ELSE PrintT(<<"DRIFT", l, r.t, r.k, KindNo(ph.k)>>)
         /\ l' = l + 1 /\ UNCHANGED tm
 
 Next == TCfg \/ TPos
